@@ -446,9 +446,16 @@ func freshReplayFails(file string) bool {
 		if props.RaceEnabled {
 			env = append(env, "GOMAXPROCS="+gmps[a%len(gmps)])
 		}
-		code, out := props.RunSelf([]string{"-replay", file, "-verif", *fVerifDir}, env, 180*time.Second)
+		code, out := props.RunSelf([]string{"-replay", file, "-verif", *fVerifDir}, env, 120*time.Second)
 		if code == 1 || code == 66 || (code != 0 && code != 2 && code != 3 && isCrash(out)) {
 			return true
+		}
+		if code == -1 {
+			// the replay hung (killed by the timeout): repeating it would only hang again. A task
+			// that blocks inside the Go runtime on something the scheduler does not model (a channel,
+			// a sync.Cond, a WaitGroup added to the library) stalls the simulation; that is a limit
+			// of the machinery, not a verdict.
+			return false
 		}
 	}
 	return false
